@@ -233,6 +233,9 @@ func newWorld(seed uint64, cfg Config, trace bool) *World {
 		els.Voters[m.Tx.EthAddr()] = true
 	}
 	w.EL = newELChain(els, uint64(simrt.Epoch.Unix()))
+	if w.Cfg.ELMaxOps > 0 {
+		w.EL.MaxOps = w.Cfg.ELMaxOps
+	}
 	w.Btc = newBtcSim(w)
 
 	// nodes
